@@ -5,6 +5,8 @@ import (
 	"errors"
 	"fmt"
 	"reflect"
+
+	"github.com/ARM-software/golang-utils/utils/commonerrors"
 	"sort"
 	"sync"
 	"time"
@@ -112,7 +114,8 @@ func runC12(rc *RunCtx) {
 	}
 	timeout := []time.Duration{3 * time.Millisecond, 10 * time.Millisecond, 250 * time.Millisecond}[ch.Intn("timeout", 3)]
 	units := 1 + ch.Intn("units", 4)
-	retErr := ch.Intn("reterr", 2) == 1
+	retKind := ch.Pick("reterr", 4, 3, 1, 1, 1) // 0 nil, 1 private error, 2 the library's timeout kind, 3 wrapped timeout kind, 4 cancelled kind
+	retErr := retKind != 0
 	parent := 0 // 0 alive, 1 cancelled before, 2 cancelled during
 	var parentAt time.Duration
 	if runner != c12RunnerStop {
@@ -138,8 +141,18 @@ func runC12(rc *RunCtx) {
 		}
 	}
 	total = bounds[units-1]
-	res.Config = fmt.Sprintf("runner=%d kind=%d timeout=%v work=%v(offset %v) units=%d reterr=%v parent=%d@%v ignore=%v", runner, kind, timeout, total, total-timeout, units, retErr, parent, parentAt, ignoreFor)
-	errAction := errors.New("action failed")
+	res.Config = fmt.Sprintf("runner=%d kind=%d timeout=%v work=%v(offset %v) units=%d reterr=%d parent=%d@%v ignore=%v", runner, kind, timeout, total, total-timeout, units, retKind, parent, parentAt, ignoreFor)
+	var errAction error
+	switch retKind {
+	case 2:
+		errAction = commonerrors.ErrTimeout // e.g. a nested, shorter time-out propagating its result
+	case 3:
+		errAction = fmt.Errorf("nested operation: %w", commonerrors.ErrTimeout)
+	case 4:
+		errAction = commonerrors.ErrCancelled
+	default:
+		errAction = errors.New("action failed")
+	}
 	obs := &c12Obs{actReturn: -1, sawSignal: -1}
 	var runErr error
 	var runReturn time.Duration = -1
@@ -270,9 +283,11 @@ func runC12(rc *RunCtx) {
 		obs.returned = true
 		obs.mu.Unlock()
 	})
-	cls := classifyLockErr(runErr)
-	if runErr == errAction || errors.Is(runErr, errAction) {
-		cls = "action-error"
+	kindOf := classifyLockErr(runErr) // ok | timeout | cancelled | other
+	isAction := runErr != nil && errors.Is(runErr, errAction)
+	cls := kindOf
+	if isAction {
+		cls = "action-error(" + kindOf + ")"
 	}
 	res.Steps = 1
 	res.SimNanos = int64(runReturn)
@@ -293,21 +308,18 @@ func runC12(rc *RunCtx) {
 	}
 	switch {
 	case parent == 1:
-		if cls != "cancelled" || obs.invoked != 0 || runReturn != 0 {
+		if kindOf != "cancelled" || obs.invoked != 0 || runReturn != 0 {
 			res.Violate("wrong-result", sig("parent-cancelled-before"), fmt.Sprintf("%s: parent context cancelled before the call: got %v at %v, action invoked %d times", res.Config, runErr, runReturn, obs.invoked))
 		}
 	case total < first && kind != actBlock:
 		// (a) finished before the deadline: own result, at that very instant
-		want := "ok"
-		if retErr {
-			want = "action-error"
-		}
-		if cls != want || runReturn != total {
-			res.Violate("wrong-result", sig("finished-before-deadline"), fmt.Sprintf("%s: action finished at %v, before the deadline: runner returned %q (%v) at %v, want %q at %v", res.Config, total, cls, runErr, runReturn, want, total))
+		okResult := (!retErr && runErr == nil) || (retErr && isAction)
+		if !okResult || runReturn != total {
+			res.Violate("wrong-result", sig("finished-before-deadline"), fmt.Sprintf("%s: action finished at %v, before the deadline, with result %v: runner returned %q (%v) at %v", res.Config, total, map[bool]error{true: errAction, false: nil}[retErr], cls, runErr, runReturn))
 		}
 	default:
 		// (b) still running at the deadline / cancellation
-		if cls != firstKind {
+		if kindOf != firstKind {
 			res.Violate("wrong-result", sig("running-at-deadline"), fmt.Sprintf("%s: action still running at %v (%s): runner returned %q (%v), want kind %q", res.Config, first, firstKind, cls, runErr, firstKind))
 		}
 		if obs.actReturn < 0 || runReturn != obs.actReturn {
